@@ -4,6 +4,7 @@ import DaskModel.Generated.ConfigTables
 import DaskModel.Model.LockReg
 import DaskModel.Model.Match
 import DaskModel.Model.Bytes
+import DaskModel.Model.KeySplit
 open Dask
 
 /-! ## C17 — config store
@@ -375,9 +376,24 @@ def hLit : Handler := handler fun args =>
     | none => pure (.sym "none")
   | _ => none
 
+/-- `(key-split "s")` -/
+def hKeySplit : Handler := handler fun args =>
+  match args with
+  | [s] => do pure (.str (Dask.KeySplit.keySplit (← s.toStr?)))
+  | _ => none
+
+/-- `(quot-general n k)` ↦ the cents computed through the general correctly rounded quotient (validates `divR`) -/
+def hQuotGeneral : Handler := handler fun args =>
+  match args with
+  | [n, k] => do
+    let n ← n.toNat?
+    let k ← k.toNat?
+    pure (.list [SExp.ofNat (centsOf Dask.Generated.ByteTables.formatDecimals (ratToDy n k)), SExp.ofNat (cents n k)])
+  | _ => none
+
 def table : List (String × Handler) :=
   [("fmt-bytes", hFmt), ("fmt-band", hBand), ("parse-bytes", hParse), ("parse-td", hParseTd), ("nat-sort", hNatSort),
-   ("float-lit", hLit)]
+   ("float-lit", hLit), ("key-split", hKeySplit), ("quot-general", hQuotGeneral)]
 end C18
 
 def table : List (String × Handler) := C17.table ++ C53.table ++ C51.table ++ C18.table
